@@ -270,6 +270,21 @@ func (g *Gate) Quiesce(o QOpts) error {
 		if !o.SkipEviction && cache.VerifEvictionPending() != 0 {
 			continue
 		}
+		// query event locks wait for exactly the unanswered query requests
+		// (skipped queries release their slot from a goroutine of their own)
+		if rem := cache.VerifLockRemaining(); rem > 0 {
+			nq := 0
+			for _, r := range g.Bus.Outstanding() {
+				switch r.Kind {
+				case "access", "get", "call", "auth":
+				default:
+					nq++
+				}
+			}
+			if rem != nq {
+				continue
+			}
+		}
 		unfinished := g.httpUnfinished()
 		connCount := g.Svc.VerifConnCount()
 		g.mu.Lock()
